@@ -90,6 +90,7 @@ func (f faultPlan) linkUnreadable(name string) bool { return f.on && strings.Has
 
 // walker observes a root.
 type walker struct {
+	root    string
 	faults  faultPlan
 	rootDev uint64
 	nodes   int
@@ -98,7 +99,7 @@ type walker struct {
 func statOf(fi os.FileInfo) *syscall.Stat_t { return fi.Sys().(*syscall.Stat_t) }
 
 // nameFacts are the facts about a directory entry's name.
-func nameFacts(name string, isDir bool, m map[string]any) {
+func nameFacts(rel, name string, isDir bool, m map[string]any) {
 	valid := utf8.ValidString(name)
 	m["u8"] = valid
 	m["tmp"] = strings.HasPrefix(name, temporaryPrefix)
@@ -109,6 +110,14 @@ func nameFacts(name string, isDir bool, m map[string]any) {
 		m["segs"] = utf8Runs(name)
 	}
 	st, ct := verdict(name, isDir)
+	if verdictMode == "docker" {
+		// the ignorer under test for acceleration is the real Docker-style one; its verdict for
+		// (path, is-directory) is the configuration the scan ran with (C15 judges it against moby)
+		st, ct = "nom", false
+		if valid {
+			st, ct = ignorerVerdict(rel, isDir)
+		}
+	}
 	m["ig"] = st
 	m["ct"] = ct
 }
@@ -122,7 +131,7 @@ func walkRoot(root string, faults faultPlan) (map[string]any, int) {
 		}
 		panic(err)
 	}
-	w := &walker{faults: faults, rootDev: uint64(statOf(fi).Dev)}
+	w := &walker{root: root, faults: faults, rootDev: uint64(statOf(fi).Dev)}
 	n := w.node(root, filepath.Base(root), fi, true)
 	return n, w.nodes
 }
@@ -133,7 +142,7 @@ func (w *walker) node(path, name string, fi os.FileInfo, isRoot bool) map[string
 	m := map[string]any{}
 	mode := fi.Mode()
 	if !isRoot {
-		nameFacts(name, mode.IsDir(), m)
+		nameFacts(strings.TrimPrefix(path, w.root+"/"), name, mode.IsDir(), m)
 	}
 	switch {
 	case mode.IsDir():
